@@ -131,7 +131,7 @@ Theorem slice_is_sublist cps i j r : Forall scalar cps -> str_exec_slice (encode
 Proof.
   intros HF H. destruct (slice_ok_inv cps i j r HF H) as (_ & _ & Hr). cbv zeta in *. split; [exact Hr|].
   rewrite Hr, char_array_is_chars by exact HF. unfold sublist.
-  rewrite skipn_map, firstn_map. unfold encode_all. f_equal. rewrite map_map. apply map_ext.
+  rewrite skipn_map, firstn_map. unfold encode_all. f_equal. apply map_ext.
   intros c. cbn [map concat]. rewrite app_nil_r. reflexivity.
 Qed.
 
@@ -187,13 +187,15 @@ Lemma cut_unfold s sep : cut s sep =
        end.
 Proof. destruct s; reflexivity. Qed.
 
+Lemma prefix_skipn s sep : has_prefix s sep = true -> s = sep ++ skipn (length sep) s.
+Proof. intros E. apply has_prefix_spec in E. destruct E as [r Hr]. subst s. rewrite skipn_app_exact. reflexivity. Qed.
+
 Lemma cut_spec : forall s sep pre post, cut s sep = Some (pre, post) -> s = pre ++ sep ++ post.
 Proof.
   induction s as [|b tl IH]; intros sep pre post H; rewrite cut_unfold in H.
-  - destruct (has_prefix [] sep) eqn:E; [|discriminate]. inversion H; subst.
-    apply has_prefix_spec in E. destruct E as [r Hr]. rewrite Hr at 1. rewrite skipn_app_exact. reflexivity.
+  - destruct (has_prefix [] sep) eqn:E; [|discriminate]. inversion H; subst. cbn [app]. apply prefix_skipn. exact E.
   - destruct (has_prefix (b :: tl) sep) eqn:E.
-    + inversion H; subst. apply has_prefix_spec in E. destruct E as [r Hr]. rewrite Hr at 1. rewrite Hr, skipn_app_exact. reflexivity.
+    + inversion H; subst. cbn [app]. apply prefix_skipn. exact E.
     + destruct (cut tl sep) as [[pre' post']|] eqn:C; [|discriminate]. inversion H; subst.
       rewrite (IH _ _ _ C) at 1. reflexivity.
 Qed.
